@@ -15,3 +15,36 @@ pub fn any_duration() -> Duration {
 pub fn fixed_random_state() -> std::hash::RandomState {
     unsafe { std::mem::transmute::<[u64; 2], std::hash::RandomState>([0x0123_4567_89ab_cdef, 0x0f1e_2d3c_4b5a_6978]) }
 }
+
+
+// ---- hash-free IndexMap lookups (DESIGN M3) ---------------------------------------------------------
+// Probed: one `IndexMap::get_mut` + one `IndexMap::get` through SipHash and hashbrown's 16-lane SIMD model
+// produce 38M variables / 168M clauses. The lookups are replaced by a semantically equivalent linear scan
+// over the entries in insertion order (IndexMap's documented iteration order); the maps in the harnesses
+// hold at most two entries. Everything else in indexmap (insert, iteration, entry order) stays real.
+use core::hash::{BuildHasher, Hash};
+use indexmap::{Equivalent, IndexMap};
+
+pub fn indexmap_get_linear<'a, K, V, S: BuildHasher, Q: ?Sized + Hash + Equivalent<K>>(
+    this: &'a IndexMap<K, V, S>,
+    key: &Q,
+) -> Option<&'a V> {
+    for (k, v) in this.iter() {
+        if key.equivalent(k) {
+            return Some(v);
+        }
+    }
+    None
+}
+
+pub fn indexmap_get_mut_linear<'a, K, V, S: BuildHasher, Q: ?Sized + Hash + Equivalent<K>>(
+    this: &'a mut IndexMap<K, V, S>,
+    key: &Q,
+) -> Option<&'a mut V> {
+    for (k, v) in this.iter_mut() {
+        if key.equivalent(k) {
+            return Some(v);
+        }
+    }
+    None
+}
